@@ -162,6 +162,23 @@ let elf_layout (c : case) : ElfSpec.elf_layout =
     el_osabi = lkn c "osabi"; el_flags = lkn c "eflags"; el_phoff_gap = lkn c "phgap";
     el_phent_extra = lkn c "phextra" }
 
+(* ---- SADUMP ---- *)
+let dotted c k = Stdlib.List.filter (fun x -> x <> "") (split_on '.' (lk c k))
+let sd_layout (c : case) : SadumpSpec.sd_layout =
+  { SadumpSpec.sl_kind = (match lk c "kind" with "d" -> SadumpSpec.SdDiskSet | "m" -> SadumpSpec.SdMedia
+                                                | _ -> SadumpSpec.SdSingle);
+    sl_block_size = lkn c "bs"; sl_version = lkn c "ver"; sl_max_mapnr = lkn c "maxmapnr";
+    sl_cpu_size = lkn c "cpusz";
+    sl_lma = Stdlib.List.map (fun ch -> ch = '1') (Stdlib.List.of_seq (String.to_seq (lk c "lma")));
+    sl_sub_blocks = lkn c "sub"; sl_bitmap_blocks = lkn c "bmb"; sl_dumpable_blocks = lkn c "dmb";
+    sl_mem_bits = Stdlib.List.map (fun ch -> ch = '1') (Stdlib.List.of_seq (String.to_seq (lk c "membits")));
+    sl_ids = lkbytes c "ids";
+    sl_vol_ids = Stdlib.List.map bytes_of_hex (dotted c "vols");
+    sl_disk_pages = Stdlib.List.map n_of_hex (dotted c "dpages");
+    sl_set_hdr_blocks = lkn c "sethdr"; sl_magic0 = lkn c "magic0" }
+let sd_image (c : case) : coq_N list option list =
+  Stdlib.List.map (function Some p -> Some p.content | None -> None) (snd (read_image c.img))
+
 let shift_of (pgsz : coq_N) : coq_N =
   let rec go k = if (1 lsl k) >= int_of_n pgsz then k else go (k + 1) in n_of_int (go 0)
 
@@ -184,6 +201,15 @@ let model_case (line : string) : string =
                          let ((s, data), st') = ElfModel.elf_read rd pgsz z (a = 'V') !st addr len in
                          st := st'; (s, data) end) } in
            run_reqs r c.reqs)
+  | "sadump" ->
+      (match SadumpModel.sd_open rd (nat_of_int (Array.length files)) with
+       | Codec.Err st -> "OPEN" ^ status_str st
+       | Codec.Ok st ->
+           let r = { geom = geom_str "sadump" false st.SadumpModel.sd_ptr_size (n_of_int 4096) st.sd_max_pfn;
+                     read = (fun z a addr len ->
+                       if a <> 'M' then (n_of_int 99, [])
+                       else SadumpModel.sd_read rd st z addr len) } in
+           run_reqs r c.reqs)
   | _ ->
   let (_, img) = read_image c.img in
   let dec = oracle_of img in
@@ -205,6 +231,12 @@ let enc_case (line : string) : string =
   | "elf" ->
       let out = ElfSpec.encode_elf (elf_layout c) (read_segs c.img) in
       Printf.sprintf "ok %d" (write_file (Stdlib.List.hd c.paths) out)
+  | "sadump" ->
+      let outs = SadumpSpec.encode_sadump (sd_layout c) (sd_image c) in
+      (* file i holds disk order[i] *)
+      let order = Stdlib.List.map int_of_string (dotted c "order") in
+      let sizes = Stdlib.List.map2 (fun path d -> write_file path (Stdlib.List.nth outs d)) c.paths order in
+      "ok " ^ String.concat "," (Stdlib.List.map string_of_int sizes)
   | _ ->
   let (_, img) = read_image c.img in
   match c.fmt with
@@ -229,6 +261,17 @@ let spec_case (line : string) : string =
                   if a <> 'M' && a <> 'V' then (n_of_int 99, [])
                   else let ((st, data), ()) = Codec.read_range (getp z (a = 'V')) pg () addr len in (st, data)) } in
       run_reqs r c.reqs
+  | "sadump" ->
+      let l = sd_layout c and simg = sd_image c in
+      let pg = n_of_int 4096 in
+      let lma = Stdlib.List.exists (fun b -> b) l.SadumpSpec.sl_lma in
+      let maxpfn = l.sl_max_mapnr in
+      let getp z () addr = (ImageSpec.spec_read_page simg pg maxpfn z (fst (BinNat.N.div_eucl addr pg)), ()) in
+      let r = { geom = geom_str "sadump" false (n_of_int (if lma then 8 else 4)) pg maxpfn;
+                read = (fun z a addr len ->
+                  if a <> 'M' then (n_of_int 99, [])
+                  else let ((st, data), ()) = Codec.read_range (getp z) pg () addr len in (st, data)) } in
+      run_reqs r c.reqs
   | _ ->
   let (pgsz, img) = read_image c.img in
   let simg = Stdlib.List.map (function Some p -> Some p.content | None -> None) img in
@@ -237,7 +280,7 @@ let spec_case (line : string) : string =
       let l = dd_layout c in
       let pg = l.DiskdumpSpec.dl_page_size and maxpfn = l.dl_max_mapnr in
       let getp z () addr =
-        (DiskdumpSpec.spec_read_page simg pg maxpfn z (fst (BinNat.N.div_eucl addr pg)), ()) in
+        (ImageSpec.spec_read_page simg pg maxpfn z (fst (BinNat.N.div_eucl addr pg)), ()) in
       let r = { geom = geom_str "diskdump" l.dl_be (n_of_int (if l.dl_64 then 8 else 4)) pg maxpfn;
                 read = (fun z a addr len ->
                   if a <> 'M' then (n_of_int 99, [])
